@@ -117,11 +117,13 @@ CHECKS = {
          "of instance and schema on every generated case, of doc.Raw() for every validated document and of the parsed doc.Spec() for accepted "
          "documents without self-referential definitions. Partial: aliasing is decided by a syntactic classification, not a heap semantics.",
          "regenerated write-site table checked by decide + snapshot correspondence", "DESIGN.md §6 C12"),
- "C17": ("Theorems that validity is the absence of errors and that the one-shot composite lists exactly the result's duplicate-free errors "
-         "(with C20), and correspondence of the full (code, name, kind) error set between the model and the code for random root paths, "
-         "plus direct checks that every error name extends the caller's root path. Location accuracy is so far established by the "
-         "model-vs-code equality of located error sets, not yet by a standalone theorem.",
-         "Lean 4 proof (result laws) + located-error-set correspondence", "DESIGN.md §6 C17"),
+ "C17": ("Kernel-checked theorems: validity is the absence of errors and the one-shot composite lists exactly the result's duplicate-free "
+         "errors (with C20); and, by mutual structural induction through every sub-validator, for every schema (no vocabulary condition), "
+         "instance, oracle, switch setting and $ref fuel: each error the model reports is named by the caller's root path extended by the "
+         "member names and indices walked through, or carries no name at all (the two composite messages without a location). Tie: the full "
+         "(code, name, kind) error set of the code = that of the model for random root paths, plus direct checks that every error name "
+         "extends the root. Partial: the theorem takes the options without the Swagger pre-checks (whose two messages name the missing keyword).",
+         "Lean 4 proof (located-error invariant through the validator tree, result laws) + located-error-set correspondence", "DESIGN.md §6 C17, §14"),
  "C18": ("Lean model of the field-schemata bookkeeping (which schema reaches which (object, member) along every merge of the validator "
          "tree) and of post.ApplyDefaults, with kernel-checked theorems for every list of recorded entries: present members stay, every "
          "added member was absent and holds a default of a schema that reached it, every absent member reached with a default is filled. "
